@@ -317,6 +317,131 @@ impl<'a> Wire<'a> {
         }
     }
 
+    /// DEEP NESTING: towers of containers written by hand (independent of the library's marshallers), total depth
+    /// 60..68 around the limit of 64, in six outer shapes, through raw validation, the Param unmarshaller and the typed
+    /// API: all three must accept exactly up to 64 levels (one per array, struct and variant, two per dict) and agree.
+    pub fn run_deep(&mut self) {
+        use crate::typed::AnyVar;
+        use std::collections::HashMap;
+        fn u32b(bo: ByteOrder, v: u32) -> [u8; 4] {
+            if bo == ByteOrder::LittleEndian { v.to_le_bytes() } else { v.to_be_bytes() }
+        }
+        // k variant levels around one byte: depth k
+        fn vtower(k: usize) -> Vec<u8> {
+            let mut b = Vec::new();
+            for _ in 1..k {
+                b.extend_from_slice(&[1, b'v', 0]);
+            }
+            b.extend_from_slice(&[1, b'y', 0, 7]);
+            b
+        }
+        // alternating variant / one-element `av` array, `pairs` times, then a variant holding a byte, starting at absolute
+        // offset `off`: depth 2 * pairs + 1
+        fn mixed(bo: ByteOrder, off: usize, pairs: usize) -> Vec<u8> {
+            if pairs == 0 {
+                return vec![1, b'y', 0, 7];
+            }
+            let mut b = vec![2, b'a', b'v', 0];
+            while (off + b.len()) % 4 != 0 {
+                b.push(0);
+            }
+            let inner = mixed(bo, off + b.len() + 4, pairs - 1);
+            b.extend_from_slice(&u32b(bo, inner.len() as u32));
+            b.extend_from_slice(&inner);
+            b
+        }
+        for bo in ORDERS {
+            for total in 60..=68usize {
+                // (signature, bytes, typed decoder)
+                let mut cases: Vec<(&str, Vec<u8>, Box<dyn Fn(&[u8]) -> Result<usize, ()>>)> = Vec::new();
+                macro_rules! typed {
+                    ($t:ty) => {
+                        Box::new(move |buf: &[u8]| {
+                            guard(|| {
+                                let mut ctx = UnmarshalContext::new(&[], bo, buf, 0);
+                                match <$t as rustbus::Unmarshal>::unmarshal(&mut ctx) {
+                                    Ok(_) => Ok(buf.len() - ctx.remainder().len()),
+                                    Err(_) => Err(()),
+                                }
+                            })
+                            .unwrap_or(Err(()))
+                        })
+                    };
+                }
+                // v: tower of `total` variants
+                cases.push(("v", vtower(total), typed!(AnyVar)));
+                // av: one element
+                let t = vtower(total - 1);
+                let mut b = u32b(bo, t.len() as u32).to_vec();
+                b.extend_from_slice(&t);
+                cases.push(("av", b, typed!(Vec<AnyVar>)));
+                // (yv)
+                let mut b = vec![9u8];
+                b.extend_from_slice(&vtower(total - 1));
+                cases.push(("(yv)", b, typed!((u8, AnyVar))));
+                // a{sv}: dict = 2 levels
+                let t = vtower(total - 2);
+                let mut e = vec![1, 0, 0, 0, b'k', 0];
+                if bo == ByteOrder::BigEndian {
+                    e[0] = 0;
+                    e[3] = 1;
+                }
+                e.extend_from_slice(&t);
+                let mut b = u32b(bo, e.len() as u32).to_vec();
+                b.extend_from_slice(&[0, 0, 0, 0]);
+                b.extend_from_slice(&e);
+                cases.push(("a{sv}", b, typed!(HashMap<String, AnyVar>)));
+                // a(yv): array + struct
+                let t = vtower(total - 2);
+                let mut b = u32b(bo, (t.len() + 1) as u32).to_vec();
+                b.extend_from_slice(&[0, 0, 0, 0, 9]);
+                b.extend_from_slice(&t);
+                cases.push(("a(yv)", b, typed!(Vec<(u8, AnyVar)>)));
+                // aav
+                let t = vtower(total - 2);
+                let mut b = u32b(bo, (t.len() + 4) as u32).to_vec();
+                b.extend_from_slice(&u32b(bo, t.len() as u32));
+                b.extend_from_slice(&t);
+                cases.push(("aav", b, typed!(Vec<Vec<AnyVar>>)));
+                // v holding av holding v ... (odd totals only)
+                if total % 2 == 1 {
+                    cases.push(("v", mixed(bo, 0, (total - 1) / 2), typed!(AnyVar)));
+                }
+                for (sig, mut buf, typed) in cases {
+                    buf.push(0x5A);
+                    let ty = Ty::from_sig_type(&rustbus::signature::Type::parse_description(sig).unwrap()[0]);
+                    let req = format!("w.dec {} 0 0 {} {}", bo_name(bo), sig, hex(&buf));
+                    let v = dec_validate(bo, 0, &buf, &ty);
+                    let p = dec_param(bo, 0, &buf, &ty);
+                    let t = typed(&buf);
+                    let agree = match (&v, &p, &t) {
+                        (Ok(a), Ok((b, _)), Ok(c)) => a == b && b == c,
+                        (Err(()), Err(()), Err(())) => true,
+                        _ => false,
+                    };
+                    let show = |r: &Result<usize, ()>| r.map(|n| n.to_string()).unwrap_or("reject".into());
+                    let obs = if agree {
+                        show_dec(&p)
+                    } else {
+                        format!("DISAGREE validate={} param={} typed={}", show(&v), show(&p.as_ref().map(|x| x.0).map_err(|_| ())), show(&t))
+                    };
+                    if !agree {
+                        self.out.violation(&req, &format!("decoders disagree on a value nested {} levels deep ({}): {}", total, sig, obs));
+                    }
+                    // directly: 64 levels are legal, 65 are not
+                    if total <= 64 && v.is_err() {
+                        self.out.violation(&req, &format!("a value nested {} levels deep ({}) is refused", total, sig));
+                    }
+                    if total > 64 && (v.is_ok() || p.is_ok() || t.is_ok()) && agree {
+                        self.out.violation(&req, &format!("a value nested {} levels deep ({}) is accepted", total, sig));
+                    }
+                    self.out.hit(&format!("deep_{}", if total <= 64 { "le64" } else { "gt64" }));
+                    self.out.case(&req, &obs, true);
+                }
+            }
+        }
+    }
+
     /// all single-fault corruptions of the pooled valid encodings: every byte +1, -1, +4, -4, ^0x80, :=0, :=0xFF and
     /// truncation at every position; when a message has more faults than `per_message_cap` an evenly spread random
     /// subset over the WHOLE message is taken (never just its first bytes)
@@ -548,6 +673,7 @@ pub fn run(cfg: &Cfg, mode: Mode) {
             w.run_unencodable(if cfg.thorough { 5000 } else { 400 });
         }
         if mode == Mode::C03 {
+            w.run_deep();
             w.run_corruptions(if cfg.thorough { 600 } else { 160 });
             w.run_random_bytes(if cfg.thorough { 300_000 } else { 20_000 });
         }
